@@ -18,10 +18,10 @@ RUNS = {"quick": 8, "thorough": 200}
 X64 = False
 RUN_TIMEOUT_S = 900
 RULE = (
-    "interior 12-18 cells per axis (non-cubic), PML thickness 8-20 per face (independent per face), homogeneous medium eps 1-2.25; source: "
+    "interior 12-18 cells per axis (non-cubic), PML thickness 8-20 per face (independent per face; default grading or explicit kappa_end 1-3 / sigma_end 0.8-1.5 x the library optimum; half of the scenes via BoundaryConfig), homogeneous medium eps 1-2.25; source: "
     "electric dipole (any axis, carrier = 6 spectral widths so the DC content is < 1e-7), magnetic dipole or uniform plane source spanning "
-    "the interior (carrier 4-6 spectral widths), 10-14 cells per wavelength, at a random position >= 3 cells from the layers; run length = "
-    "pulse end + 3 diagonal transits. non-trivial = peak interior energy > 0; distinct = (source kind, polarisation/axis, thickness bin, "
+    "the interior (carrier 6-7 spectral widths), 10-14 cells per wavelength, at a random position >= 3 cells from the layers; run length = "
+    "pulse end + 3 diagonal transits (x 2.5 in a third of the scenes). non-trivial = peak interior energy > 0; distinct = (source kind, polarisation/axis, thickness bin, "
     "position octant)"
 )
 REAL = ["place_objects", "run_fdtd (checkpointed loop)", "PML (CPML update, default grading)", "EnergyDetector", "FieldDetector", "sources"]
@@ -41,7 +41,10 @@ def generate(rng, tier, index):
     cpw = float(rng.uniform(10, 14))
     lam0 = cpw * np.sqrt(eps) * specgen.SPACING
     kind = ["edipole", "mdipole", "plane"][index % 3]
-    ratio = 6.0 if kind == "edipole" else float(rng.uniform(4.0, 6.0))
+    # carrier = 6 spectral widths for every source kind: the pulse's DC content (exp(-18) in amplitude) is what a current
+    # source leaves behind as a *static* field (deposited electric or magnetic charge), which no absorbing layer removes -
+    # the statement's "zero-net-charge" premise. (A magnetic dipole at 4 widths leaves 2.7e-6 of the peak energy for ever.)
+    ratio = 6.0 if kind == "edipole" else float(rng.uniform(6.0, 7.0))
     period_steps = cpw * np.sqrt(eps) / (0.99 / np.sqrt(3))
     sig_t = ratio * period_steps / (2 * np.pi)
     diag = float(np.linalg.norm(interior)) * np.sqrt(eps) / (0.99 / np.sqrt(3))
@@ -61,19 +64,34 @@ def generate(rng, tier, index):
     else:
         src.update({"kind": "dipole", "box": [[p, p + 1] for p in pos], "polarization": pol, "source_type": "electric" if kind == "edipole" else "magnetic", "amplitude": 1.0})
     win = [[max(0, n // 2 - 3), min(n, n // 2 + 3)] for n in interior]
-    return {"interior": interior, "thickness": th, "eps": eps, "steps": T, "source": src, "window": win, "pad": int(rng.integers(24, 31)), "off_step": int(12 * sig_t), "source_kind": kind}
+    # layer grading: library defaults, or explicit values around them - kappa stretching 1-3 and sigma_end 0.8-1.5 x the
+    # library's own optimum -(m+1) ln(1e-6) / (2 eta0 d); half of the scenes build their layers through the documented
+    # BoundaryConfig -> boundary_objects_from_config path instead of constructing PerfectlyMatchedLayer directly
+    grading = {}
+    for f in specgen.FACES:
+        g = {}
+        if rng.uniform() < 0.5:
+            g["kappa_end"] = float(rng.uniform(1.0, 3.0))
+        if rng.uniform() < 0.5:
+            g["sigma_end"] = float(rng.uniform(0.8, 1.5)) * (4.0 * np.log(1e6) / (2 * 376.730313668 * th[f] * specgen.SPACING))
+        grading[f] = g
+    via_config = bool(rng.uniform() < 0.5)
+    # one scene in three runs 2.5 x longer: a layer that is unstable only at late times must still be quiet then
+    if rng.uniform() < 0.34:
+        T = int(2.5 * T)
+    return {"grading": grading, "via_config": via_config, "interior": interior, "thickness": th, "eps": eps, "steps": T, "source": src, "window": win, "pad": int(rng.integers(24, 31)), "off_step": int(12 * sig_t), "source_kind": kind}
 
 
 def shrink(spec):
     return []
 
 
-def _scene(spec, pad, th):
+def _scene(spec, pad, th, grading=False):
     """Interior placed at offset (pad + thickness) inside a domain with PML `th` per face."""
     interior = spec["interior"]
     off = [pad + th[f"min_{ax}"] for ax in "xyz"]
     shape = [interior[a] + 2 * pad + th[f"min_{ax}"] + th[f"max_{ax}"] for a, ax in enumerate("xyz")]
-    faces = {f: {"kind": "pml", "thickness": th[f]} for f in specgen.FACES}
+    faces = {f: {"kind": "pml", "thickness": th[f], **(spec.get("grading", {}).get(f, {}) if grading else {})} for f in specgen.FACES}
 
     def shift(box):
         return [[b[0] + off[a], b[1] + off[a]] for a, b in enumerate(box)]
@@ -87,6 +105,7 @@ def _scene(spec, pad, th):
     return {
         "shape": shape, "grid": {"kind": "uniform", "spacing": specgen.SPACING}, "steps": spec["steps"], "faces": faces, "dtype": "float32", "key": 0,
         "materials": {"mode": "objects", "objects": [], "background": {"permittivity": spec["eps"]}}, "sources": [src], "detectors": dets,
+        "faces_via_config": bool(grading and spec.get("via_config")),
     }
 
 
@@ -97,7 +116,7 @@ def execute(spec):
     viol, stats, resid = [], {"sim_steps": 0, "sim_time_fs": 0.0}, {}
     out = {}
     for name, pad, th in (("main", 0, spec["thickness"]), ("ref", spec["pad"], {f: 10 for f in specgen.FACES})):
-        scn = sc.build_scene(_scene(spec, pad, th))
+        scn = sc.build_scene(_scene(spec, pad, th, grading=(name == "main")))
         t, arr = fdtdx.run_fdtd(scn.arrays, scn.objects, scn.config, scn.key, show_progress=False)
         D = dr.detectors_np((t, arr))
         out[name] = (D["u_int/energy"][:, 0].astype(np.float64), D["probe/fields"].astype(np.float64))
@@ -123,6 +142,10 @@ def execute(spec):
     else:
         viol.append({"monitor": "no_energy_injected"})
     stats["probe_" + spec["source_kind"]] = 1
+    stats["probe_layers_via_boundary_config"] = int(bool(spec.get("via_config")))
+    stats["probe_explicit_kappa"] = int(any("kappa_end" in g for g in spec.get("grading", {}).values()))
+    stats["probe_explicit_sigma"] = int(any("sigma_end" in g for g in spec.get("grading", {}).values()))
+    stats["probe_long_run"] = int(spec["steps"] > 1.5 * (spec["off_step"] + 1) and spec["steps"] > 900)
     stats["probe_thick_layer_ge16"] = int(max(spec["thickness"].values()) >= 16)
     sig = specgen.signature(spec["source_kind"], spec["source"].get("polarization"), spec["source"].get("direction"), min(spec["thickness"].values()) // 4, max(spec["thickness"].values()) // 4,
                             [int(b[0] > n // 2) for b, n in zip(spec["source"]["box"], spec["interior"])])
